@@ -152,6 +152,14 @@ fn yaml_flow(v: &DV, style: u64) -> String {
     }
 }
 
+fn has_long_key(v: &DV) -> bool {
+    match v {
+        DV::Map(m) => m.iter().any(|(k, x)| k.len() > 800 || has_long_key(x)),
+        DV::Seq(s) => s.iter().any(has_long_key),
+        _ => false,
+    }
+}
+
 fn yaml_block(v: &DV, indent: usize, style: &mut u64, out: &mut String) {
     let pad = " ".repeat(indent);
     match v {
@@ -160,11 +168,14 @@ fn yaml_block(v: &DV, indent: usize, style: &mut u64, out: &mut String) {
                 *style = style.wrapping_mul(6364136223846793005).wrapping_add(1442695040888963407);
                 let st = *style >> 40;
                 let key = if yaml_plain_ok(k) && st & 2 == 0 { k.clone() } else { quote(k) };
+                // YAML limits implicit keys to 1024 characters: longer ones are written as explicit keys ("? key")
+                let (key, sep) = if key.len() > 900 { (format!("? {}\n{}", key, pad), ":".to_string()) } else { (key, ":".to_string()) };
+                let _ = &sep;
                 match x {
                     DV::Map(mm) if mm.is_empty() => out.push_str(&format!("{}{}: {{}}\n", pad, key)),
                     DV::Seq(ss) if ss.is_empty() => out.push_str(&format!("{}{}: []\n", pad, key)),
                     DV::Map(_) | DV::Seq(_) => {
-                        if st & 12 == 0 {
+                        if st & 12 == 0 && !has_long_key(x) {
                             out.push_str(&format!("{}{}: {}\n", pad, key, yaml_flow(x, st)));
                         } else {
                             out.push_str(&format!("{}{}:\n", pad, key));
